@@ -19,6 +19,7 @@ type Task struct {
 	done   bool
 	site   string // where it is parked
 	Yields int    // yield points passed so far
+	waits  any    // non-nil: blocked until Wake is called with this key (a modelled lock)
 }
 
 // Step is one scheduling decision of an execution.
@@ -42,29 +43,53 @@ type event struct {
 	pan  any
 }
 
+// Deadlock is the Aborted text of an execution in which every unfinished task waits for a lock.
+const Deadlock = "deadlock: every unfinished goroutine waits for a lock"
+
 // Run executes the tasks under the given choice prefix; beyond the prefix
 // choice 0 is taken (keep running the current task, else the lowest id).
 // atState is called before every decision with the execution so far; returning
-// false stops the execution (the remaining goroutines are released to finish
-// unscheduled). A choice out of range in the prefix is a replay divergence and
-// panics.
+// false stops the questions: the execution is finished with default choices,
+// still one task at a time. A task that waits for a modelled lock (verifrt.Block)
+// is not enabled until the lock is released; when every unfinished task waits,
+// the execution is a deadlock (Exec.Aborted == Deadlock) and the tasks are
+// unwound. A choice out of range in the prefix is a replay divergence and panics.
 func Run(tasks []*Task, prefix []int, atState func(x *Exec, tasks []*Task) bool) (x *Exec) {
 	x = &Exec{}
 	events := make(chan event)
 	var running *Task
 	verifrt.Sched = func(site string) {
 		t := running
-		if t == nil {
-			return // not under the scheduler (set-up code)
+		if t == nil || verifrt.Aborting {
+			return // not under the scheduler (set-up code), or unwinding after a deadlock
 		}
 		t.site = site
 		t.Yields++
 		events <- event{task: t}
 		<-t.resume
 	}
-	defer func() { verifrt.Sched = nil }()
+	verifrt.Aborting = false
+	verifrt.Block = func(key any) {
+		t := running
+		if t == nil {
+			panic("sched: Block outside a scheduled task")
+		}
+		t.waits = key
+		t.site = "blocked"
+		events <- event{task: t}
+		<-t.resume
+	}
+	verifrt.Wake = func(key any) {
+		for _, t := range tasks {
+			if t.waits == key {
+				t.waits = nil
+			}
+		}
+	}
+	defer func() { verifrt.Sched, verifrt.Block, verifrt.Wake = nil, nil, nil }()
 	for _, t := range tasks {
 		t.resume = make(chan struct{})
+		t.waits = nil
 		t.done = false
 		t.site = "start"
 		t.Yields = 0
@@ -73,6 +98,9 @@ func Run(tasks []*Task, prefix []int, atState func(x *Exec, tasks []*Task) bool)
 			<-t.resume
 			defer func() {
 				r := recover()
+				if _, ok := r.(verifrt.Aborted); ok {
+					r = nil // released from a modelled lock because the execution ended in a deadlock
+				}
 				t.done = true
 				events <- event{task: t, done: true, pan: r}
 			}()
@@ -84,45 +112,60 @@ func Run(tasks []*Task, prefix []int, atState func(x *Exec, tasks []*Task) bool)
 		byID[t.ID] = t
 	}
 	last := -1
+	quiet := false
 	for {
 		var enabled []int
-		if last >= 0 && !byID[last].done {
+		if last >= 0 && !byID[last].done && byID[last].waits == nil {
 			enabled = append(enabled, last)
 		}
+		unfinished := 0
 		for _, t := range tasks {
-			if !t.done && t.ID != last {
+			if !t.done {
+				unfinished++
+			}
+			if !t.done && t.waits == nil && t.ID != last {
 				enabled = append(enabled, t.ID)
 			}
 		}
-		if len(enabled) == 0 {
+		if unfinished == 0 {
 			return x
 		}
-		if atState != nil && !atState(x, tasks) {
-			x.Aborted = "stopped by the state callback"
-			// release everything: let the goroutines run to completion unscheduled
-			running = nil
-			verifrt.Sched = nil
+		if len(enabled) == 0 {
+			// every unfinished task waits for a lock: unwind them one at a time (the scheduler stays in charge, so that
+			// their deferred calls do not run concurrently)
+			x.Aborted = Deadlock
+			verifrt.Aborting = true
 			for _, t := range tasks {
-				if !t.done {
-					close(t.resume)
+				for !t.done {
+					running = t
+					t.resume <- struct{}{}
+					ev := <-events
+					running = nil
+					_ = ev
 				}
 			}
-			// drain
-			pending := 0
-			for _, t := range tasks {
-				if !t.done {
-					pending++
-				}
-			}
-			for pending > 0 {
-				ev := <-events
-				if ev.done {
-					pending--
-				}
-			}
+			verifrt.Aborting = false
 			return x
+		}
+		if !quiet && atState != nil && !atState(x, tasks) {
+			// the caller has seen enough of this execution: finish it without further questions, still one task at a
+			// time (the library may hold shared state that free-running goroutines would corrupt)
+			x.Aborted = "stopped by the state callback"
+			quiet = true
 		}
 		choice := 0
+		if quiet {
+			t := byID[enabled[0]]
+			running = t
+			t.resume <- struct{}{}
+			ev := <-events
+			running = nil
+			if ev.pan != nil {
+				panic(ev.pan)
+			}
+			last = t.ID
+			continue
+		}
 		if len(x.Steps) < len(prefix) {
 			choice = prefix[len(x.Steps)]
 			if choice >= len(enabled) {
